@@ -15,7 +15,7 @@
 From Coq Require Import ZArith QArith Reals.
 From Flocq Require Import Core.
 From PV Require Import Model.Sched Proofs.SchedFloatCore Proofs.SchedFloatRel Proofs.SchedFloatConst
-  Proofs.SchedFloatLink Proofs.SchedFloatLine Proofs.SchedFloatLineLink.
+  Proofs.SchedFloatLink Proofs.SchedFloatLine Proofs.SchedFloatLineLink Proofs.SchedFloatLineDec Proofs.SchedFloatLineDecLink.
 Local Open Scope R_scope.
 
 (* constDoAt, Duration(float64(i) * (1e9/ops)): before the conversion the float64 value is
@@ -89,11 +89,18 @@ Example C01_float_example_const :
 Proof. exact float_const_example. Qed.
 
 (* ------------------------------------------------------------------------------------ *)
-(* line.go.  PARTIAL: increasing lines (a > 0) whose rates are binary64 numbers.  Not proved:
-   decreasing lines (the radicand 2*a*i + b*b itself cancels; the error of the last operations
-   grows like from/rate(x) and is unbounded when the line ends at rate 0 - for them the
-   tolerance of the correspondence run stays a measured one), and rates that are not binary64
-   numbers (their representation error enters the slope multiplied by kappa). *)
+(* line.go, lines whose rates are binary64 numbers (NewLine takes float64 arguments; the rational
+   rates of the model are their values).
+   Proved in full: the count of increasing and of decreasing lines; the instants of increasing
+   lines (tolerance of the driver incl. the cancellation term D*kappa/2^48).
+   PARTIAL (names end in _partial): the instants of DECREASING lines.  There the radicand
+   b*b - 2|a|i itself cancels and the error grows like from/rate(x): the bound is proved with the
+   explicit conditioning V = (from/rate(x)) * from*1e9/|a| and reaches the driver's tolerance only
+   for the operations with (from/rate(x)) * from/(from-to) <= c, 3c <= 1020 + 4 kappa (all
+   operations of a line that does not fall below ~1/340 of its initial rate); for the remaining
+   operations of steeper lines the tolerance of the correspondence run stays a measured one.
+   Rates that are not binary64 numbers (decimal config values) are not covered for lines: their
+   representation error enters the slope multiplied by kappa. *)
 
 (* lineDoAt, Duration((math.Sqrt(2a*float64(i) + b*b) - b) * (1e9/a)) for binary64 a > 0, b >= 0:
    with S = sqrt(2 a i + b^2), Y = (S - b) 1e9/a the exact instant and Z = S 1e9/a >= Y (Z/Y is
@@ -125,7 +132,7 @@ Print Assumptions C01_float_line_at_model_partial.
 (* NewLine, int64(a*xn*xn/2 + b*xn): the float64 sum is within relative 2^-49 (14u) of the exact
    integral; the count passes spec_b's count check with the driver's 2^-40 and equals the
    model's count unless the integral is within relative 2^-49 of an integer *)
-Theorem C01_float_line_count_partial : forall f t D,
+Theorem C01_float_line_count_inc : forall f t D,
   valid (PLine f t D) -> (f < t)%Q ->
   is_b64 (Q2R f) -> is_b64 (Q2R t) -> Q2R f = 0 \/ rate_guard (Q2R f) ->
   let a := go_line_a (Q2R f) (Q2R t) D in
@@ -136,7 +143,49 @@ Theorem C01_float_line_count_partial : forall f t D,
   (go_line_n a (Q2R f) D <> count (PLine f t D) -> exists m : Z, Rabs (IZR m - I) <= I * bpow radix2 (-49)) /\
   (I <= bpow radix2 62 -> (0 <= go_line_n a (Q2R f) D < 2 ^ 63)%Z).
 Proof. exact float_line_count_model. Qed.
-Print Assumptions C01_float_line_count_partial.
+Print Assumptions C01_float_line_count_inc.
+
+(* decreasing line, a = -alpha < 0: with R = b^2 - 2 alpha i >= 64u b^2, S = sqrt R, Y the exact
+   instant and V = (b^2/S) 1e9/alpha, the float64 value of lineDoAt is within 4u Y + 5u V + eta *)
+Theorem C01_float_line_dec_at_partial : forall alpha b i,
+  is_b64 alpha -> is_b64 b -> slope_guard alpha -> rate_guard b -> (0 <= i < 2 ^ 53)%Z ->
+  64 * u * (b * b) <= b * b - 2 * alpha * IZR i ->
+  let Y := line_Y (- alpha) b i in
+  Rabs (go_line_at_f (- alpha) b i - Y) <= 4 * u * Y + 5 * u * line_V alpha b i + eta /\
+  0 <= Y <= line_V alpha b i.
+Proof. exact line_at_dec_f_err. Qed.
+Print Assumptions C01_float_line_dec_at_partial.
+
+(* against the exact model: operation k of a valid decreasing line, scheduled where
+   from^2 <= c (from - to) rate(x)  (rate(x) = line_S = sqrt(2 a k + from^2)), with
+   3c <= 1020 + 4 kappa, is within the driver's tolerance of the model's line_at *)
+Theorem C01_float_line_dec_at_model_partial : forall f t D k (c kappa : Z),
+  valid (PLine f t D) -> (t < f)%Q ->
+  is_b64 (Q2R f) -> is_b64 (Q2R t) -> rate_guard (Q2R f) ->
+  let a := go_line_a (Q2R f) (Q2R t) D in
+  slope_guard (- a) ->
+  (D < 2 ^ 63)%Z -> (0 <= k < count (PLine f t D))%Z -> (k < 2 ^ 53)%Z ->
+  Q2R f * Q2R f <= IZR c * (Q2R f - Q2R t) * line_S (line_slope (Q2R f) (Q2R t) D) (Q2R f) k ->
+  (c <= 2 ^ 23)%Z -> (0 <= kappa)%Z -> (3 * c <= 1020 + 4 * kappa)%Z ->
+  exists x, line_at f t D k = Some x /\
+    (Z.abs (go_line_at a (Q2R f) k - x) <= 1 + D / 2 ^ 40 + (D * kappa) / 2 ^ 48)%Z.
+Proof. exact float_line_at_model_dec. Qed.
+Print Assumptions C01_float_line_dec_at_model_partial.
+
+(* the count of a decreasing line: the float64 sum a*xn*xn/2 + b*xn (a difference) is within
+   relative 2^-48 (23u) of the exact integral *)
+Theorem C01_float_line_count_dec : forall f t D,
+  valid (PLine f t D) -> (t < f)%Q ->
+  is_b64 (Q2R f) -> is_b64 (Q2R t) -> rate_guard (Q2R f) ->
+  let a := go_line_a (Q2R f) (Q2R t) D in
+  slope_guard (- a) -> (D < 2 ^ 63)%Z ->
+  let I := Q2R (cum_line f t D D) in
+  count_ok (cum_line f t D D) (1 # 1099511627776) (go_line_n a (Q2R f) D) = true /\
+  Rabs (go_line_n_f a (Q2R f) D - I) <= I * bpow radix2 (-48) /\
+  (go_line_n a (Q2R f) D <> count (PLine f t D) -> exists m : Z, Rabs (IZR m - I) <= I * bpow radix2 (-48)) /\
+  (I <= bpow radix2 62 -> (0 <= go_line_n a (Q2R f) D < 2 ^ 63)%Z).
+Proof. exact float_line_count_model_dec. Qed.
+Print Assumptions C01_float_line_count_dec.
 
 (* non-vacuity: line 0 -> 10 requests per second over 1.5 s *)
 Example C01_float_example_line :
@@ -146,3 +195,12 @@ Example C01_float_example_line :
   count (PLine f t D) = 7%Z /\ line_at f t D 6 = Some 1341640786%Z /\
   go_line_n a (Q2R f) D = 7%Z /\ (Z.abs (go_line_at a (Q2R f) 6 - 1341640786) <= 1)%Z.
 Proof. exact float_line_example. Qed.
+
+(* non-vacuity: line 10 -> 0 requests per second over 0.5 s (c = 2, kappa = 1) *)
+Example C01_float_example_line_dec :
+  let f := (10 # 1)%Q in let t := 0%Q in let D := 500000000%Z in
+  let a := go_line_a (Q2R f) (Q2R t) D in
+  valid (PLine f t D) /\ is_b64 (Q2R f) /\ is_b64 (Q2R t) /\ rate_guard (Q2R f) /\ slope_guard (- a) /\
+  count (PLine f t D) = 2%Z /\ line_at f t D 1 = Some 112701665%Z /\
+  go_line_n a (Q2R f) D = 2%Z /\ (Z.abs (go_line_at a (Q2R f) 1 - 112701665) <= 1)%Z.
+Proof. exact float_line_dec_example. Qed.
